@@ -2,7 +2,7 @@
 From Coq Require Import List ZArith Bool.
 From Coq Require String.
 Import String.StringSyntax.
-From YS Require Import Base.Sexp Container.QueueWire Syntax.Indent Yarn.RunnerWire Markup.MarkupWire Yarn.BuiltinWire.
+From YS Require Import Base.Sexp Container.QueueWire Syntax.Indent Yarn.RunnerWire Markup.MarkupWire Yarn.BuiltinWire Yarn.BridgeWire.
 Import ListNotations.
 Local Open Scope string_scope.
 
@@ -17,6 +17,7 @@ Definition dispatch (e : sexp) : sexp :=
       else if tag_is t "markuphist" then run_markuphist_case args
       else if tag_is t "unicode" then run_unicode_case args
       else if tag_is t "builtin" then run_builtin_case args
+      else if tag_is t "bridge" then run_bridge_case args
       else if tag_is t "fmt" then run_fmt_case args
       else if tag_is t "parse" then run_parse_case args
       else bad "unknown family"
